@@ -366,7 +366,8 @@ def run_property(prop, tier, seed):
                       f, indent=1, default=repr)
         lines_out.append('VIOLATION property=%s replay=%s' % (prop, path))
         lines_out.append('  key: %s' % k)
-        lines_out.append('  what: %s (seen %d times)' % (v['what'], v['count']))
+        what = v['what'] if len(v['what']) < 600 else v['what'][:600] + '...'
+        lines_out.append('  what: %s (seen %d times)' % (what, v['count']))
 
     # must-observe thresholds ---------------------------------------------------
     req = mod.requirements(tier) if hasattr(mod, 'requirements') else {}
@@ -487,6 +488,6 @@ def run_replay(prop, path):
         else:
             print('VIOLATION property=%s replay=%s' % (prop, path))
             print('  key: %s' % k)
-            print('  what: %s' % v['what'])
+            print('  what: %s' % v['what'][:2000])
             rc = 1
     return rc
